@@ -45,7 +45,7 @@ pub fn templates() -> Vec<Template> {
             files: vec![lfile(
                 "x.py",
                 "{} = 0",
-                "O|import os\nT0|# <block name=\"a\" affects=\":b\">\nC|k1 = 1\nC|k2 = 2\nC|k3 = 3\nE0|# </block>\nO|mid = 0\nT1|# <block name=\"b\">\nC|v1 = 1\nC|v2 = 2\nE1|# </block>\nO|tail = 9",
+                "O|import os\nT0|# <block name=\"a\" affects=\":b\">\nC|k1 = 1\nC|k2 = 2\nC|k3 = 3\nE0|# </block>\nO|mid = 0\nT1|# <block name=\"b\" keep-sorted severity=\"warning\">\nC|v2 = 1\nC|v1 = 2\nE1|# </block>\nO|tail = 9",
             )],
             blocks: vec![spec(0, 0, Some("a"), &[(None, "b")]), spec(1, 0, Some("b"), &[])],
         },
@@ -373,7 +373,9 @@ pub fn judge(t: &Template, new: &[LFile], diff: &str, context: usize, input: &Va
         if want != got {
             sink.fail(format!("C01:affects-diagnostics-differ:{mode}"), describe(&format!("expected affects diagnostics (file, tag line, target file, target name) {want:?}, observed {got:?}")), input.clone());
         }
-        if diags.iter().any(|d| d.code != "affects") {
+        // Other rules of the templates (T1's block b is an unsorted keep-sorted block of warning
+        // severity, so that a second validator reports on the same file) are not judged here.
+        if diags.iter().any(|d| d.code != "affects" && d.code != "keep-sorted") {
             sink.fail("C01:stray-diagnostic", describe(&format!("{:?}", diags.iter().map(|d| d.code.clone()).collect::<Vec<_>>())), input.clone());
         }
         if (outcome.exit_status() == 1) != !want.is_empty() {
